@@ -83,7 +83,9 @@ def gen_claims(rng: Rng):
             claims[name] = v
             expected[name] = v
         else:
-            epoch = rng.pick([0, 1, 86399, 951782400, 1700000000, 1711846800, 1729990800, 2 ** 31 + 5, 4102444800]) + rng.randrange(0, 86400)
+            epoch = rng.pick([0, 1, 86399, 951782400, 1700000000, 1711846800, 1729990800, 2 ** 31 + 5, 4102444800,
+                              # before the epoch (truncation vs floor), far in the future (float seconds lose the microseconds' carry)
+                              -1, -86400, -1000000000, -2208988800, 32503680000, 95617584000, 253402000000]) + rng.randrange(0, 86400)
             micro = rng.pick([0, 0, 1, 500000, 999999])
             if rng.chance(0.5):
                 tz = rng.pick([datetime.timezone.utc, datetime.timezone(datetime.timedelta(hours=5, minutes=30)),
